@@ -166,8 +166,7 @@ impl SubscriptionActor {
                 let _ = responder.send(result);
             }
             SubscriptionRequest::Delete { responder } => {
-                let result = self.delete().await;
-                let _ = responder.send(result);
+                self.delete(responder);
             }
             SubscriptionRequest::GetStats { responder } => {
                 let result = self.get_stats();
@@ -262,32 +261,51 @@ impl SubscriptionActor {
     }
 
     /// Marks the subscription as deleted. Further requests will be no-ops.
-    async fn delete(&mut self) -> Result<(), DeleteError> {
+    ///
+    /// The rest of the deletion involves the topic actor, which may at this very
+    /// moment be waiting for room in our mailbox (it posts published messages to
+    /// us). Waiting for it from inside the actor loop would deadlock, so the
+    /// deletion is completed by a separate task while the actor keeps draining
+    /// its mailbox. The caller is answered once the deletion is complete.
+    fn delete(&mut self, responder: oneshot::Sender<Result<(), DeleteError>>) {
         if self.deleted {
-            return Ok(());
+            // A deletion is already under way (or done); answer when it is complete.
+            let deleted = self.observer.deleted();
+            tokio::spawn(async move {
+                deleted.await;
+                let _ = responder.send(Ok(()));
+            });
+            return;
         }
 
         self.deleted = true;
-
-        // If the topic is still around, remove ourselves from it's list of subscriptions.
-        if let Some(topic) = self.topic.upgrade() {
-            topic
-                .remove_subscription(self.info.name.clone())
-                .await
-                .map_err(|e| match e {
-                    RemoveSubscriptionError::Closed => DeleteError::Closed,
-                })?;
-        }
-
-        self.delegate.delete(&self.info.name);
-        self.observer.notify_deleted();
         self.outstanding.clear();
         self.backlog.clear();
 
-        // Unregister the subscription from push.
-        self.push_registry.set(self.info.name.clone(), None);
+        let topic = self.topic.upgrade();
+        let name = self.info.name.clone();
+        let delegate = self.delegate.clone();
+        let observer = Arc::clone(&self.observer);
+        let push_registry = self.push_registry.clone();
+        tokio::spawn(async move {
+            // If the topic is still around, remove ourselves from it's list of subscriptions.
+            if let Some(topic) = topic {
+                if let Err(RemoveSubscriptionError::Closed) =
+                    topic.remove_subscription(name.clone()).await
+                {
+                    let _ = responder.send(Err(DeleteError::Closed));
+                    return;
+                }
+            }
 
-        Ok(())
+            delegate.delete(&name);
+
+            // Unregister the subscription from push.
+            push_registry.set(name, None);
+
+            observer.notify_deleted();
+            let _ = responder.send(Ok(()));
+        });
     }
 
     /// Gets the stats for the subscription.
